@@ -18,6 +18,7 @@ import (
 	"regexp"
 	"sort"
 	"strings"
+	"syscall"
 	"testing"
 	"unsafe"
 
@@ -42,6 +43,8 @@ type PubOptions struct {
 	// library's own DirectoryFileWriter meets ENAMETOOLONG at 255 bytes on
 	// every common file system). 0 = no limit. Not a library option.
 	NameLimit int `json:"name_limit,omitempty"`
+	// staleDir: see PubVariant.StaleDir (set per variant, not part of the case)
+	staleDir bool
 }
 
 func (o PubOptions) lib() *html.PublishShowOptions {
@@ -77,6 +80,9 @@ type PubVariant struct {
 	// DirectoryFileWriter into a temporary directory instead of the
 	// simulated disk; the files are read back afterwards.
 	RealWriter bool `json:"real_writer,omitempty"`
+	// StaleDir (with RealWriter): the output directory already holds an
+	// older, longer version of every page when the publish under test runs.
+	StaleDir bool `json:"stale_dir,omitempty"`
 }
 
 type PubEdit struct {
@@ -155,12 +161,21 @@ type Disk struct {
 	// returned (-1 while it is running)
 	returnedAt int
 	nameLimit  int
+	nfail      int
 }
 
 var errNameTooLong = fmt.Errorf("simulated disk: file name too long")
 
 //go:norace
 func (d *Disk) markReturned() { d.returnedAt = d.calls }
+
+// failures counts the failing calls so far, this one included.
+//
+//go:norace
+func (d *Disk) failures() int {
+	d.nfail++
+	return d.nfail
+}
 
 //go:norace
 func (d *Disk) next() (k int, fail bool) {
@@ -201,9 +216,15 @@ func (d *Disk) WriteFile(f *core.File) error {
 		return errNameTooLong
 	}
 	if fail {
-		d.record(k, f.Name, componentKind(f.Component), nil, errDisk.Error())
+		// what a real disk does: the failure itself is a *os.PathError, a
+		// writer that stays broken answers with some other error afterwards
+		var err error = errDisk
+		if d.failures() == 1 {
+			err = &os.PathError{Op: "open", Path: strings.Clone(f.Name), Err: syscall.ENOSPC}
+		}
+		d.record(k, f.Name, componentKind(f.Component), nil, err.Error())
 		simrt.Yield("disk:write+")
-		return errDisk
+		return err
 	}
 	var buf bytes.Buffer
 	_, err := f.Component.WriteHTMLTo(&buf)
@@ -273,6 +294,18 @@ func runPublishWith(t *testing.T, cr *CaseResult, prop string, doc *gedcom.Docum
 	run.res, _ = runSim(t, cr, prop, sim, func() {
 		publisher := html.NewPublisher(doc, lib)
 		if real {
+			if opts.staleDir {
+				// an earlier publish into the same directory, whose pages
+				// were longer than the ones written now
+				html.NewPublisher(doc, lib).Publish(core.NewDirectoryFileWriter(dir), 1)
+				entries, _ := os.ReadDir(dir)
+				for _, e := range entries {
+					if f, err := os.OpenFile(dir+"/"+e.Name(), os.O_APPEND|os.O_WRONLY, 0o644); err == nil {
+						f.WriteString("\n<!-- the rest of an older, longer page -->\n")
+						f.Close()
+					}
+				}
+			}
 			perr = publisher.Publish(core.NewDirectoryFileWriter(dir), jobs)
 			return
 		}
@@ -710,6 +743,7 @@ func genPublishCase(prop, tier string, r *rand.Rand) *Case {
 				v.Interleaved = r.IntN(2) == 0
 			} else {
 				v.RealWriter = true
+				v.StaleDir = r.IntN(2) == 0
 				v.Jobs = pick(r, []int{2, 8, 16})
 			}
 		}
@@ -858,7 +892,12 @@ func runPublishCase(t *testing.T, c *Case) *CaseResult {
 				}
 			}
 			if run == nil {
-				run, _ = runPublishWith(t, cr, prop, doc, cfg.Options, lib, v.RealWriter, v.Jobs, v.Sim, c.Today, nil)
+				o := cfg.Options
+				o.staleDir = v.StaleDir
+				if v.StaleDir {
+					cr.count("history.published_into_before", 1)
+				}
+				run, _ = runPublishWith(t, cr, prop, doc, o, lib, v.RealWriter, v.Jobs, v.Sim, c.Today, nil)
 			}
 			if v.RealWriter {
 				cr.count("disk.real_directory_writer", 1)
@@ -975,7 +1014,10 @@ func runPublishCase(t *testing.T, c *Case) *CaseResult {
 					cr.Probes["producer_left_blocked_after_failure"]++
 				}
 			case "crash":
-				cr.observe("publish crashed on a failing writer: " + crashSignature(run.res.Crash))
+				// the simulated disk only ever returns errors, so a panic here
+				// is Publish's own: a crash is not "reports an error"
+				cr.violate(prop+"/fault", "publish panics after a writer failure: "+crashSignature(run.res.Crash),
+					fmt.Sprintf("WriteFile call %d failed (jobs=%d sticky=%v)\n%s\n%s", k, jobs, f.Sticky, run.res.Crash.Value, run.res.Crash.Stack))
 			default:
 				var where []string
 				for _, l := range run.res.Leaked {
